@@ -1,0 +1,5 @@
+//go:build !verif
+
+package ast
+
+func verifFill(op string, state *fillState, oldName, newName string) {}
